@@ -486,8 +486,8 @@ func checkC15(R *Run) {
 	if l := R.mustFn("(*mobius.YAMLAccountManager).List"); l != nil {
 		ok := false
 		eachInstr(l, func(i ssa.Instruction) {
-			if r, isR := i.(*ssa.Range); isR {
-				if f, isF := loadedField(r.X); isF && f == "mobius.YAMLAccountManager.accounts" {
+			if mv := enumeratedMap(i); mv != nil {
+				if f, isF := loadedField(mv); isF && f == "mobius.YAMLAccountManager.accounts" {
 					ok = true
 				}
 			}
